@@ -28,7 +28,11 @@ for p in props:
             "evidence_file": f"evidence/{pid}.json",
             "replay_cmd_template": "./check " + pid + " --replay {path}", "engine": "pyvc",
             "level_claimed": {"category": c.get('category', 'proof'), "text": c['text'], "design_ref": f"DESIGN.md section 7 ({pid}) and section 13"},
-            "level_note": c['note'], "technique": TECH})
+            "level_note": c['note'],
+            "technique": (TECH if c.get('category', 'proof') == 'proof' else
+                          "bounded stand-in of the contract-based family: side-car contracts on the real functions checked at run time "
+                          "on generated inputs (real processes where ranks matter) against an executable reference written from the "
+                          "property statement; no deductive obligation is discharged for this property and nothing is counted as proved")})
     else:
         na = json.load(open(os.path.join(V, 'tools', 'not_applicable.json')))
         m['not_applicable'].append({"property_id": pid, "reason": na.get(pid, "check not built yet in this session (contracts in progress); not claimed until its obligations discharge")})
